@@ -154,10 +154,14 @@ def main():
     if violations:
         import replay
         os.makedirs(os.path.join(VERIF, 'replays', prop), exist_ok=True)
-        for j, r in violations:
+        def do_replay(jr):
+            j, r = jr
             path = os.path.join(VERIF, 'replays', prop, j['name'] + '.json')
             json.dump(dict(property=prop, job=j, violation=r['violation'], fp=r.get('fp')), open(path, 'w'), indent=1)
-            verdict, info = replay.replay(j, r, work, INC)
+            return path, replay.replay(j, r, work, INC)
+        with ThreadPoolExecutor(max_workers=a.jobs) as ex:
+            reps = list(ex.map(do_replay, violations[:12]))
+        for (j, r), (path, (verdict, info)) in zip(violations[:12], reps):
             r['replay'] = dict(verdict=verdict, info=info[-1500:], path=path)
             if verdict == 'reproduced':
                 confirmed += 1
